@@ -14,20 +14,24 @@ from .c18 import Model
 from .common import METAHANDLER
 
 LEVEL_TEXT = (
-    "Static rules: (R1) for every MetaHandlerGenerator subclass (found through the hierarchy, inherited methods included) "
-    "generate is abstractly interpreted (each random draw a fresh exact symbol in its range, choice -> a member of the "
-    "option container, counted append loops, comprehensions and joins -> a sequence of symbolic length) and validate is "
-    "abstractly evaluated on that value: every conjunct (or, for guard-clause validators, the negation of every rejecting "
-    "guard) must hold for all parameter values, including min == max and the boundaries; a conjunct that is false at an "
-    "attainable corner is reported with the corner; (R2/R3/R4) finite-model interpretation of create_node and mutate "
-    "(sa/treemodel.py: the source is interpreted on symbolic types of each form with the repository's own type-form "
-    "predicates inlined over a model of the typing runtime, helper functions inlined, recursive creation calls recorded "
-    "with snapshots of their dict arguments): an annotated field gets exactly the value its refinement's generate returns, "
-    "generate receives the sibling values; the children of a production are created with a fresh dict holding exactly the "
-    "earlier fields of that node under their names with the values placed in the node; mutate regenerates the selected "
-    "field and every later field whose refinement depends on a regenerated sibling (9 scenarios x dependency shapes), "
-    "passing the rebuilt siblings; the stack mapper's refined branch must be reachable (syntactic; known finding). "
-    "User-supplied Dependent callables and the SMT refinement have no decidable validator and are listed as skipped."
+    "Static rules: (R1) for every MetaHandlerGenerator subclass (found through the hierarchy, inherited methods "
+    "included) generate is abstractly interpreted (each random draw a fresh exact symbol in its range, choice -> "
+    "a member of the option container, counted append loops, comprehensions and joins -> a sequence of symbolic "
+    "length) and validate is abstractly evaluated on that value: every conjunct (or, for guard-clause validators,"
+    " the negation of every rejecting guard) must hold for all parameter values, including min == max and the "
+    "boundaries; a conjunct that is false at an attainable corner is reported with the corner; (R2/R3/R4) finite-"
+    "model interpretation of create_node and mutate (sa/treemodel.py: the source is interpreted on symbolic types"
+    " of each form with the repository's own type-form predicates inlined over a model of the typing runtime, "
+    "helper functions inlined, recursive creation calls recorded with snapshots of their dict arguments): an "
+    "annotated field gets exactly the value its refinement's generate returns, generate receives the sibling "
+    "values; the children of a production are created with a fresh dict holding exactly the earlier fields of "
+    "that node under their names with the values placed in the node; mutate regenerates the selected field and "
+    "every later field whose refinement depends on a regenerated sibling (9 scenarios x dependency shapes), "
+    "passing the rebuilt siblings; the stack mapper is interpreted (sa/rules/stackmodel.py): a refined field must"
+    " take a value its refinement validated (known finding: the plain stack shadows the refined branch); (R6) "
+    "Dependent.generate is interpreted: the callable receives the sibling values named in the refinement, in the "
+    "named order, and the resulting type goes to the creation callback. User-supplied Dependent callables and the"
+    " SMT refinement have no decidable validator and are listed as skipped."
 )
 
 SKIP = {
